@@ -343,53 +343,98 @@ func runPhase(bin, scratch, prop, tier string, seed uint64, ph phase, known stri
 	outs := make([]string, workers)
 	errs := make([]error, workers)
 	logs := make([]string, workers)
+	partsOf := make([][]string, workers)
+	var hangMu sync.Mutex
+	var hangs []RunResult
 	for w := 0; w < workers; w++ {
 		wg.Add(1)
 		outs[w] = filepath.Join(scratch, fmt.Sprintf("out-%s-%d.jsonl", ph.name, w))
 		go func(w int) {
 			defer wg.Done()
-			args := []string{"-test.run", "^TestWorker$", "-test.timeout", "6h", "-test.cpu", "1",
-				"-sim.prop", prop, "-sim.tier", tier, "-sim.seed", strconv.FormatUint(seed, 10),
-				"-sim.from", strconv.Itoa(ph.from + w), "-sim.to", strconv.Itoa(ph.from + ph.runs), "-sim.stride", strconv.Itoa(workers),
-				"-sim.out", outs[w], "-sim.budget", ph.wall.String()}
-			if o := optString(opts); o != "" {
-				args = append(args, "-sim.opts", o)
+			from := ph.from + w
+			var parts []string
+			for attempt := 0; attempt < 40; attempt++ {
+				out := outs[w]
+				if attempt > 0 {
+					out = fmt.Sprintf("%s.%d", outs[w], attempt)
+				}
+				args := []string{"-test.run", "^TestWorker$", "-test.timeout", "6h", "-test.cpu", "1",
+					"-sim.prop", prop, "-sim.tier", tier, "-sim.seed", strconv.FormatUint(seed, 10),
+					"-sim.from", strconv.Itoa(from), "-sim.to", strconv.Itoa(ph.from + ph.runs), "-sim.stride", strconv.Itoa(workers),
+					"-sim.out", out, "-sim.budget", ph.wall.String()}
+				if o := optString(opts); o != "" {
+					args = append(args, "-sim.opts", o)
+				}
+				cmd := exec.Command(bin, args...)
+				cmd.Dir = scratch
+				cmd.Env = goEnv()
+				o, err := cmd.CombinedOutput()
+				logs[w] = string(o)
+				errs[w] = err
+				parts = append(parts, out)
+				hb, herr := os.ReadFile(out + ".hang")
+				if herr != nil {
+					break
+				}
+				// the watchdog stopped the worker inside a CPU loop of the code
+				// under test: record it and carry on after that index
+				os.Remove(out + ".hang")
+				var h struct {
+					Spec  RunSpec `json:"spec"`
+					Desc  any     `json:"desc"`
+					Site  string  `json:"site"`
+					Stack string  `json:"stack"`
+					WallS float64 `json:"wall_s"`
+				}
+				if json.Unmarshal(hb, &h) != nil {
+					break
+				}
+				hangMu.Lock()
+				hangs = append(hangs, RunResult{Prop: prop, Index: h.Spec.Index, End: "cpu-hang", W: h.Spec.W, S: h.Spec.S, Desc: h.Desc, Nontrivial: true,
+					Violations: []Violation{{Oracle: "cpu-hang", Site: h.Site, Detail: fmt.Sprintf("the run made no progress for %.0f s of wall-clock time: a goroutine of the code under test is in a CPU loop that reaches no synchronisation point\n%s", h.WallS, h.Stack)}}})
+				hangMu.Unlock()
+				// close the partial output so that the merge accepts it
+				if f, e := os.OpenFile(out, os.O_APPEND|os.O_WRONLY|os.O_CREATE, 0o644); e == nil {
+					f.WriteString("\n{\"done\":true,\"runs\":0,\"wall_s\":0}\n")
+					f.Close()
+				}
+				from = h.Spec.Index + workers
 			}
-			cmd := exec.Command(bin, args...)
-			cmd.Dir = scratch
-			cmd.Env = goEnv()
-			out, err := cmd.CombinedOutput()
-			logs[w] = string(out)
-			errs[w] = err
+			partsOf[w] = parts
 		}(w)
 	}
 	wg.Wait()
+	for _, h := range hangs {
+		m.add(h, ph.name)
+	}
 	for w := 0; w < workers; w++ {
-		f, err := os.Open(outs[w])
-		if err != nil {
-			cleanup(scratch)
-			fatal2("worker %d produced no output: %v\n%s", w, errs[w], tail(logs[w], 3000))
-		}
-		sc := bufio.NewScanner(f)
-		sc.Buffer(make([]byte, 1<<20), 1<<28)
-		done := false
-		for sc.Scan() {
-			var r RunResult
-			if err := json.Unmarshal(sc.Bytes(), &r); err != nil {
-				continue
+		for _, part := range partsOf[w] {
+			f, err := os.Open(part)
+			if err != nil {
+				cleanup(scratch)
+				fatal2("worker %d produced no output: %v\n%s", w, errs[w], tail(logs[w], 3000))
 			}
-			if r.Done {
-				done = true
-				m.workerWall += r.WallS
-				continue
+			sc := bufio.NewScanner(f)
+			sc.Buffer(make([]byte, 1<<20), 1<<28)
+			done := false
+			for sc.Scan() {
+				var r RunResult
+				if err := json.Unmarshal(sc.Bytes(), &r); err != nil {
+					continue
+				}
+				if r.Done {
+					done = true
+					m.workerWall += r.WallS
+					continue
+				}
+				m.add(r, ph.name)
 			}
-			m.add(r, ph.name)
-		}
-		f.Close()
-		os.Remove(outs[w])
-		if !done {
-			cleanup(scratch)
-			fatal2("worker %d crashed (harness problem, not a violation): %v\n%s", w, errs[w], tail(logs[w], 6000))
+			f.Close()
+			os.Remove(part)
+			if !done {
+				cleanup(scratch)
+				fatal2("worker %d crashed (harness problem, not a violation): %v\n%s", w, errs[w], tail(logs[w], 6000))
+			}
 		}
 	}
 }
@@ -558,7 +603,12 @@ func check(id, tier string) int {
 		cmd := exec.Command(bin, "-test.run", "^TestWorker$", "-test.timeout", "1h", "-sim.shrink", raw, "-sim.shrinkout", path, "-sim.shrinkbudget", budget)
 		cmd.Dir = scratch
 		cmd.Env = goEnv()
-		if out, err := cmd.CombinedOutput(); err != nil {
+		if strings.HasPrefix(c, "cpu-hang@") {
+			// every execution of such a case costs the watchdog's full
+			// wall-clock limit: keep the original run as the replay
+			bi, _ := json.MarshalIndent(rf, "", " ")
+			os.WriteFile(path, bi, 0o644)
+		} else if out, err := cmd.CombinedOutput(); err != nil {
 			// keep the un-minimised replay
 			bi, _ := json.MarshalIndent(rf, "", " ")
 			os.WriteFile(path, bi, 0o644)
@@ -665,6 +715,19 @@ func replayOnce(bin, scratch, path string) (reproduced, traceEqual bool, out str
 	cmd.Env = goEnv()
 	b, _ := cmd.CombinedOutput()
 	out = string(b)
+	if hb, err := os.ReadFile(path + ".hang"); err == nil {
+		os.Remove(path + ".hang")
+		var h struct {
+			Site string `json:"site"`
+		}
+		var rf ReplayFile
+		rb, _ := os.ReadFile(path)
+		json.Unmarshal(rb, &rf)
+		if json.Unmarshal(hb, &h) == nil && rf.Class == "cpu-hang@"+h.Site {
+			return true, true, "replay: the run hangs again in " + h.Site
+		}
+		return false, false, "replay: the run hangs, but somewhere else: " + h.Site
+	}
 	// the JSON document is the first thing printed
 	i := strings.Index(out, "{")
 	j := strings.LastIndex(out, "}")
